@@ -900,6 +900,8 @@ type windowIn struct {
 	Prefix  string `json:"url_prefix,omitempty"` // e.g. "chunkdur_0.5/" (chunked low-latency delivery)
 	// Concurrent: observed while many other segment requests were served at the same time
 	Concurrent bool `json:"concurrent,omitempty"`
+	// Irregular: the asset's video segments have different durations ("bundled" or "generated" asset)
+	Irregular string `json:"irregular_asset,omitempty"`
 	// availabilityStartTime of the configuration (start_<s>) and its remainder modulo 60
 	StartS     int64  `json:"start_s"`
 	StartMod60 int64  `json:"start_mod_60"`
@@ -922,6 +924,26 @@ func nowFor(nr int, segDur, ts uint64) int {
 // urlPrefix is put in front of scte35_<n>/ in the segment URLs (e.g. "chunkdur_0.5/": chunked
 // low-latency delivery). Set by the callers, which run sequentially.
 var urlPrefix = ""
+
+// irregularRep is set while segments of an asset with varying segment durations are fetched by number.
+var irregularRep *lib.TLRep
+var irregularKind = ""
+
+// irregularGen: generated layouts whose video segments differ from the nominal (average) duration.
+func irregularGen() []lib.GenAsset {
+	return []lib.GenAsset{
+		{Name: "g13_alt48", Reps: []lib.GenRep{lib.VideoRep("V1", 90000, 3000, lib.AlternatingDurs(4, 360000, 720000))}},            // 4 s / 8 s
+		{Name: "g13_irr", Reps: []lib.GenRep{lib.VideoRep("V1", 12800, 512, lib.FrameDurs(512, 50, 25, 75, 48, 52, 10, 40))}},         // 0.4 .. 3 s
+		{Name: "g13_long_short", Reps: []lib.GenRep{lib.VideoRep("V1", 90000, 3000, []uint64{900000, 180000, 810000, 90000, 720000})}}, // 10, 2, 9, 1, 8 s
+	}
+}
+
+func infoOf(a *lib.TLAsset) *assetInfo {
+	ref := a.Ref()
+	n := uint64(len(ref.Segs))
+	return &assetInfo{Name: a.Path, MPD: a.MPD, VideoRep: ref.ID, TS: uint64(ref.Timescale), SegDur: uint64(ref.Duration()) / n,
+		trex: map[string]*mp4.TrexBox{ref.ID: ref.Trex}}
+}
 var reStartOpt = regexp.MustCompile(`(?:^|/)start_(\d+)/`)
 var reSnrOpt = regexp.MustCompile(`(?:^|/)snr_(\d+)/`)
 
@@ -935,6 +957,9 @@ func fetchSeg(ls *lib.Livesim, a *assetInfo, rep string, n int, nr int, segDur, 
 		// the chunked writer paces in real time up to a chunk duration beyond the segment end (the last
 		// chunk is accounted with the nominal chunk duration): ask late enough that nothing sleeps
 		now += int(2 * segDur * 1000 / ts)
+	}
+	if irregularRep != nil { // segments of different durations: the end of segment nr from the harness's own segment table
+		now = int(irregularRep.LoopE(int64(nr))*1000/irregularRep.Timescale) + 1500
 	}
 	// further URL options in the prefix: availabilityStartTime, start number, $Time$ addressing
 	id := int64(nr)
@@ -1463,6 +1488,7 @@ func runC13(c *lib.Ctx) error {
 			w.StartS, _ = strconv.ParseInt(m[1], 10, 64)
 			w.StartMod60 = w.StartS % 60
 		}
+		w.Irregular = irregularKind
 		var segs []segObs
 		base := fmt.Sprintf("w%d", r.nextID)
 		for nr := firstNr; nr < firstNr+count; nr++ {
@@ -1933,6 +1959,53 @@ func runC13(c *lib.Ctx) error {
 		}
 		ls = saved
 	}
+	// ------------------------------------------------------------ assets whose video segments have different durations
+	// (bundled testpic_alt_seg_dur_stl: 4 s / 8 s; generated: 4/8 s, 0.4..3 s, 10/2/9/1/8 s): windows of a
+	// good minute of consecutive segments, the whole-sequence oracle: exactly one carrier per scheduled
+	// splice, and the carrier contains the announce instant
+	{
+		type irr struct {
+			ls   *lib.Livesim
+			a    *lib.TLAsset
+			kind string
+		}
+		var irrs []irr
+		bundled, err := lib.LoadBundledAssets(lib.TestVodRoot)
+		if err != nil {
+			return err
+		}
+		for _, b := range bundled {
+			if b.Path == "testpic_alt_seg_dur_stl" && b.Ref() != nil {
+				irrs = append(irrs, irr{ls, b, "bundled"})
+			}
+		}
+		gas, gls, gcleanup, err := lib.GenSetup("c13irr", irregularGen())
+		if err != nil {
+			return fmt.Errorf("generated assets: %w", err)
+		}
+		defer gcleanup()
+		for _, g := range gas {
+			irrs = append(irrs, irr{gls, g, "generated"})
+		}
+		saved := ls
+		for _, x := range irrs {
+			ref := x.a.Ref()
+			ai := infoOf(x.a)
+			N := len(ref.Segs)
+			perMinute := int(60*ai.TS/ai.SegDur) + 2*N
+			for n := 1; n <= 3; n++ {
+				for k := 0; k < scale; k++ {
+					first := rng.Intn(3000) * N / 1
+					ls, irregularRep, irregularKind = x.ls, ref, x.kind
+					err := window(ai, n, first, perMinute, "irregular-minute", 4)
+					ls, irregularRep, irregularKind = saved, nil, ""
+					if err != nil {
+						return err
+					}
+				}
+			}
+		}
+	}
 	// other N are rejected with 400 (segment and MPD requests)
 	for _, n := range []int{0, 4, 5, -1, 10, 60, 100} {
 		for _, tail := range []string{"testpic_2s/V300/20.m4s", "testpic_2s/Manifest.mpd", "testpic_8s/A48/5.m4s"} {
@@ -1958,7 +2031,7 @@ func runC13(c *lib.Ctx) error {
 		r.terms = append(r.terms, fmt.Sprintf("CCfg %d %s %d", idn, optZ(&nn), resp.Status))
 	}
 
-	c.Res.Evaluations = len(r.terms) + oracleSegs - c.Res.Distribution["segment:first-hours"] - c.Res.Distribution["segment:contiguous-minute"] - c.Res.Distribution["segment:far-minute"] - c.Res.Distribution["segment:around-announce"] - c.Res.Distribution["segment:chunked-minute"] - c.Res.Distribution["segment:crossed-minute"] - c.Res.Distribution["segment:derived-video"] - concTerms
+	c.Res.Evaluations = len(r.terms) + oracleSegs - c.Res.Distribution["segment:first-hours"] - c.Res.Distribution["segment:contiguous-minute"] - c.Res.Distribution["segment:far-minute"] - c.Res.Distribution["segment:around-announce"] - c.Res.Distribution["segment:chunked-minute"] - c.Res.Distribution["segment:crossed-minute"] - c.Res.Distribution["segment:derived-video"] - c.Res.Distribution["segment:irregular-minute"] - concTerms
 	c.Res.ModelCases = len(r.terms)
 	c.Res.DistinctNontrivial = len(r.distinct)
 	c.Res.Rule = fmt.Sprintf("direct CreateEmsgAhead calls (start/end exactly on, one tick before/after every announce instant; segments straddling a minute; random; PTS and id wrap; other N; inverted/long segments; timescale 0; uint64 wrap), direct CreateSpliceInsertPayload calls with random parameters, and video segments served by the in-process server for testpic_2s/6s/8s and the 29.97 fps WAVE asset with scte35_1/2/3: every segment of the first 3 h (10 h in the thorough tier; WAVE: sampled minutes) plus single minutes around multiples of 2^33/90000 s and up to ~57 years from the epoch (%d s of stream fetched and checked by the oracle; of the first hours the model replays a random 1/8 of the segments with an event or next to an announce instant and 1/60 of the rest, of the other windows all of the former and 1/10 of the latter; latest minute below 200000 s ends at %d s); audio segments, scte35 off, MPDs, rejected N. distinct = distinct inputs; non-trivial = an event (emsg) was produced", streamSeconds, maxSecond)
@@ -2018,8 +2091,28 @@ func replayC13(c *lib.Ctx) error {
 		if strings.HasPrefix(w.Asset, "WAVE") {
 			mpd = "stream.mpd"
 		}
-		a, err := loadAsset(ls, w.Asset, mpd)
-		if err != nil {
+		var a *assetInfo
+		if w.Irregular != "" {
+			var tas []*lib.TLAsset
+			if w.Irregular == "generated" {
+				gas, gls, gcleanup, err := lib.GenSetup("c13irrreplay", irregularGen())
+				if err != nil {
+					return err
+				}
+				defer gcleanup()
+				ls, tas = gls, gas
+			} else if tas, err = lib.LoadBundledAssets(lib.TestVodRoot); err != nil {
+				return err
+			}
+			for _, ta := range tas {
+				if ta.Path == w.Asset && ta.Ref() != nil {
+					a, irregularRep = infoOf(ta), ta.Ref()
+				}
+			}
+			if a == nil {
+				return fmt.Errorf("asset %s not found", w.Asset)
+			}
+		} else if a, err = loadAsset(ls, w.Asset, mpd); err != nil {
 			return err
 		}
 		var segs []segObs
